@@ -99,3 +99,26 @@ class ParseStatement:
             self_.tables.append(self_.yacc.result)
         elif case["outcome"] == "library-error" and not self_.silent:
             raise DDLParserError("Unknown symbol")
+
+
+@contract
+class ParserConstruction:
+    """what a parser object remembers of its constructor arguments: the text (escaped), normalize_names as given, and
+    silent - which debug=True switches OFF whatever silent says (documented: debug is for development); a fresh, empty
+    result list.  The lexer / parser objects are PLY's (A-PLY); attributes not named here are the object's own business."""
+    fn = "parser.Parser.__init__"
+    props = ["C%02d" % i for i in range(1, 21)]       # every property starts from a constructed parser
+    abstract_callees = True
+    cases = {"any arguments": {}}
+
+    def build(G, case):
+        obj = G.parser()
+        obj.__dict__.pop("lexer", None)       # a bare object: the constructor establishes every attribute the run path reads
+        return dict(args=[obj, G.str("content", None, "CREATE TABLE t (a int);")],
+                    kwargs=dict(silent=G.bool("silent"), debug=G.bool("debug"), normalize_names=G.bool("normalize_names")))
+
+    def spec(case, self_, content, silent=True, debug=False, normalize_names=False, log_file=None, log_level=20):
+        self_.tables = []
+        self_.silent = silent and not debug
+        self_.normalize_names = normalize_names
+        self_.data = opaque("str.encode", content, "unicode_escape")
